@@ -36,7 +36,7 @@ def main():
                 c = sh("python3 tools/check.py %s --tier quick" % pid, cwd=VERIF)
                 lines = [l for l in c.stdout.split("\n") if l.startswith("VIOLATION")]
                 res[pid] = {"rc": c.returncode, "violation_line": lines[0] if lines else "", "wall_s": round(time.time() - t0, 1),
-                            "summary": (c.stdout.strip().split("\n") or [""])[-2][:300] if c.stdout.strip() else c.stderr[-300:]}
+                            "summary": (c.stdout.strip().split("\n")[-2:] + [c.stderr[-300:]])[0][:300]}
                 if lines:
                     rp = lines[0].split("replay=")[1].split(" ")[0]
                     try:
